@@ -461,7 +461,12 @@ namespace Pistache
 
     std::ostream& operator<<(std::ostream& os, const Address& address)
     {
-        os << address.host() << ":" << address.port();
+        // an IPv6 literal needs its brackets, otherwise the port can not be told from the address
+        if (address.family() == AF_INET6)
+            os << '[' << address.host() << ']';
+        else
+            os << address.host();
+        os << ":" << address.port();
         return os;
     }
 
